@@ -66,6 +66,7 @@ func (self *MaxJobsSemaphore) Acquire(metadata *Metadata, nonblocking bool) bool
 		if nonblocking {
 			return false
 		}
+		verifSlot(self, "SlotWait", metadata)
 		self.cond.Wait()
 	}
 	if st, ok := metadata.getState(); ok && st != Queued && st != Waiting {
